@@ -295,7 +295,7 @@ def rule_d(repo, chk, d, t, e):
                 cf, _inner = invocation_context(f.module.repo, f)
                 if cf is f:
                     ca = catch_all_clause(gf, sites[0]) if sites else None
-                    assigned = ca is not None and any(ev_ in Q.node_defs(n2) and 'exc_info' in src(n2.ast) for n2 in pat.region(gf, 'except', ca.ast)
+                    assigned = ca is not None and any(ev_ in Q.node_defs(n2) and _binds_exc_info(gf, n2) for n2 in pat.region(gf, 'except', ca.ast)
                                                      if n2.kind == 'stmt')
                 else:
                     assigned = any(ev_ in Q.node_defs(n2) for n2 in sites)
@@ -310,13 +310,21 @@ def rule_d(repo, chk, d, t, e):
                    nontrivial=False)
 
 
-def _is_exc_info(g, node, arg, handler_ast):
+def _is_exc_info(g, node, arg, handler_ast, depth=0):
     if isinstance(arg, ast.Call):
         return 'exc_info' in src(arg)
     if isinstance(arg, ast.Name):
         defs = Q.reaching_defs(g, node, arg.id)
-        return bool(defs) and all(dn.kind == 'stmt' and 'exc_info' in src(dn.ast) for dn in defs)
+        return bool(defs) and all(dn.kind == 'stmt' and _binds_exc_info(g, dn, depth) for dn in defs)
     return False
+
+
+def _binds_exc_info(g, dn, depth=0):
+    """The statement binds the exception being handled: `err = _exc_info()`, or a copy of a local bound that way (a helper's result)."""
+    if 'exc_info' in src(dn.ast):
+        return True
+    v = dn.ast.value if isinstance(dn.ast, ast.Assign) else None
+    return depth < 3 and isinstance(v, ast.Name) and _is_exc_info(g, dn, v, None, depth + 1)
 
 
 def rule_e(chk, e):
